@@ -31,7 +31,8 @@ T0 == [sup |-> {"fg", "xtv", "cell", "da1"},
        fg |-> [c |-> << <<99>>, <<48>>, <<102>> >>, st |-> "bel"],
        bg |-> [c |-> << <<48>>, <<48>>, <<48>> >>, st |-> "st"],
        name |-> <<75, 99>>, ver |-> <<49>>, form |-> "paren", xst |-> "st",
-       cell |-> <<20, 10>>, area |-> <<480, 800>>, kid |-> 31, kmsg |-> MsgOK, da1 |-> <<54>>]
+       cell |-> <<20, 10>>, area |-> <<480, 800>>, kid |-> 31, kmsg |-> MsgOK, da1 |-> <<54>>,
+       envName |-> <<>>, envVer |-> <<>>]
 
 Pred1 == [stop |-> 3, raiseAt |-> 0]
 Pred2 == [stop |-> 99, raiseAt |-> 2]      \* PredicateRaises (second call)
@@ -70,12 +71,17 @@ RunLen(mm, ee) ==
   IF mm.status # "run" \/ ee.hung THEN ee.nsys
   ELSE LET r == Respond(ee, Pending(mm)) IN RunLen(Feed(mm, r.res), [r.env EXCEPT !.nsys = @ + 1])
 
-Pars(cases, words) ==
+\* The exception kind matters only in draw (except KeyboardInterrupt -> _handle_interrupted_draw_):
+\* both kinds are enumerated there; elsewhere the harness alternates them.
+Pars(cases, words, kinds) ==
   UNION {{[case |-> c, attr0 |-> w, fault |-> f] :
-            f \in {[k |-> 0, when |-> "before"]}
-                  \cup {[k |-> k, when |-> wh] : k \in 1..RunLen(Start(Cfg, c.opx), Env0(c, w)), wh \in {"before", "after"}}}
+            f \in {[k |-> 0, when |-> "before", kind |-> "InjectedFault"]}
+                  \cup {[k |-> k, when |-> wh, kind |-> kd] :
+                          k \in 1..RunLen(Start(Cfg, c.opx), Env0(c, w)), wh \in {"before", "after"}, kd \in kinds}}
          : c \in cases, w \in words}
-Params == Pars(ReadCases \cup DrawCases, Words) \cup Pars(QueryCases, IF AllWords THEN Words ELSE FewWords)
+Params == Pars(ReadCases, Words, {"InjectedFault"})
+          \cup Pars(DrawCases, Words, {"InjectedFault", "KeyboardInterrupt"})
+          \cup Pars(QueryCases, IF AllWords THEN Words ELSE FewWords, {"InjectedFault"})
 
 Init ==
   /\ par \in Params
@@ -93,7 +99,7 @@ Sys(call) ==
   /\ LET rq == Pending(m)
          r == Respond(e, rq)
          hit == par.fault.k = e.nsys + 1 /\ ~Exempt /\ (par.fault.when = "before" \/ r.res.ok) IN
-       /\ m' = Feed(m, IF hit THEN ResRaise("InjectedFault") ELSE r.res)
+       /\ m' = Feed(m, IF hit THEN ResRaise(par.fault.kind) ELSE r.res)
        /\ e' = IF hit /\ par.fault.when = "before" THEN [e EXCEPT !.nsys = @ + 1] ELSE [r.env EXCEPT !.nsys = @ + 1]
        /\ fired' = (fired \/ hit)
        /\ exm' = (exm \/ (par.fault.k = e.nsys + 1 /\ Exempt))
@@ -111,7 +117,8 @@ Termsize == Sys("termsize")
 Ioctl == Sys("ioctl")
 More == Sys("more")
 Stream == Sys("stream")
-Next == Tcgetattr \/ Tcsetattr \/ Write \/ Tcdrain \/ Select \/ Read \/ Monotonic \/ Termsize \/ Ioctl
+Hook == Sys("hook")      \* _render_ / _handle_interrupted_draw_ / _finalize_render_data_ of the renderable
+Next == Hook \/ Tcgetattr \/ Tcsetattr \/ Write \/ Tcdrain \/ Select \/ Read \/ Monotonic \/ Termsize \/ Ioctl
         \/ More \/ Stream
 Spec == Init /\ [][Next]_vars
 
